@@ -192,10 +192,32 @@ def _point(ctx, os_, major, minor, arch, text, cross=True):
 
 
 def run(ctx):
-    for os_, major, minor, arch, text in grid():
+    from dep_logic.tags import Platform
+
+    retained = []
+    pts = list(grid())
+    for os_, major, minor, arch, text in pts:
         ctx.cases += 1
         ctx.current_case = {"kind": "platform", "point": [os_, major, minor, arch, text]}
         ctx.guarded(20.0, _point, ctx, os_, major, minor, arch, text)
+        try:
+            p = Platform.parse(text)
+            retained.append((text, p, list(p.compatible_tags)))
+        except Exception:  # noqa: BLE001
+            pass
+    # second pass in reverse order (state shared between platform objects must not depend on the order of first use)
+    for os_, major, minor, arch, text in reversed(pts):
+        ctx.cases += 1
+        ctx.current_case = {"kind": "platform", "point": [os_, major, minor, arch, text]}
+        ctx.guarded(20.0, _point, ctx, os_, major, minor, arch, text, False)
+    # objects kept from the first pass: their tag lists must be what they were (no aliasing with later objects)
+    for text, p, first in retained:
+        bump("retained-platform")
+        now = list(p.compatible_tags)
+        if now != first:
+            violation(PROP, "compatible_tags", "the tag list of a platform object changed after other platforms were evaluated",
+                      {"platform": text, "added": [t for t in now if t not in first][:6], "removed": [t for t in first if t not in now][:6],
+                       "group": "aliasing"}, case={"kind": "platform", "point": [None, 0, 0, "", text]})
     ctx.current_case = None
     ctx.extra["exhaustive"] = True
 
